@@ -586,8 +586,10 @@ impl Monitor for M {
     }
 
     fn floors(&self, tier: Tier) -> Vec<(&'static str, u64)> {
-        // about a third of what a quick run observes; the thorough tier is 20x larger
-        let m = tier.pick(1, 15);
+        // about a third of what a quick run observes. The random phases of the thorough tier are 20x
+        // larger but the enumerated phase (a large share of the boundary-ligature lists) is not:
+        // the smallest thorough/quick-floor ratio measured is 11.
+        let m = tier.pick(1, 8);
         let mut v = vec![
             ("unit_cases_run", 33),
             ("unit_cases_equal_to_TeX_golden", 33),
